@@ -67,6 +67,12 @@ structure RRset where
   rdatas : List RData := []
   deriving DecidableEq, Repr
 
+/-- the class written on the wire: `override_rdclass = self.deleting` when the RRset has one -/
+def RRset.wireClass (r : RRset) : Nat :=
+  match r.deleting with
+  | some d => d
+  | none => r.rdclass
+
 /-- the OPT pseudo-record as `Message.opt` holds it: ttl = ext-rcode/version/flags, class = payload, options -/
 structure EOpt where
   ttl : Nat
